@@ -195,3 +195,132 @@ func DebugNarrow(p *core.Prog) {
 		}
 	}
 }
+
+// c06RangeBound: every Locator.Range / Slice / At call in the TLS walk is proved in bounds:
+// the guards dominating the call (with single-definition locals substituted) entail
+// hi <= L.Len() (resp. k < L.Len()) by linear reasoning.  "reads out of bounds" and
+// "never panics" of the property both need it: BuiltinBytesLocator reslices up to the
+// capacity of the buffer, so an unproved upper index reads bytes that are not part of
+// the record, or panics when the buffer is full.
+func c06RangeBound(c *Ctx) {
+	const rule = "RANGEBOUND"
+	n := 0
+	for _, name := range []string{"extractSniFromTls", "findSniExtension"} {
+		f := c.fn(rule, "component/sniffing", name)
+		if f == nil {
+			continue
+		}
+		info := f.Info()
+		g := f.Graph()
+		// definitions of locals: (node, right-hand side or nil when it is not a plain `v := e` / `v = e`)
+		type def struct {
+			node ast.Node
+			rhs  ast.Expr
+		}
+		defs := map[types.Object][]def{}
+		for _, p := range g.Find(func(nd ast.Node) bool { return true }) {
+			switch s := p.Node().(type) {
+			case *ast.AssignStmt:
+				for i, l := range s.Lhs {
+					id, ok := l.(*ast.Ident)
+					if !ok {
+						continue
+					}
+					o := info.ObjectOf(id)
+					if o == nil {
+						continue
+					}
+					var rhs ast.Expr
+					if (s.Tok == token.DEFINE || s.Tok == token.ASSIGN) && len(s.Lhs) == len(s.Rhs) {
+						rhs = s.Rhs[i]
+					}
+					defs[o] = append(defs[o], def{s, rhs})
+				}
+			case *ast.IncDecStmt:
+				if id, ok := s.X.(*ast.Ident); ok {
+					if o := info.ObjectOf(id); o != nil {
+						defs[o] = append(defs[o], def{s, nil})
+					}
+				}
+			}
+		}
+		for _, p := range g.Find(func(nd ast.Node) bool {
+			r := false
+			ownCalls(nd, func(call *ast.CallExpr, _ bool) {
+				if cal := core.Callee(info, call); cal != nil && recvName(cal) == "Locator" && (cal.Name() == "At" || cal.Name() == "Range" || cal.Name() == "Slice") {
+					r = true
+				}
+			})
+			return r
+		}) {
+			var call *ast.CallExpr
+			ownCalls(p.Node(), func(cl *ast.CallExpr, _ bool) {
+				if cal := core.Callee(info, cl); cal != nil && recvName(cal) == "Locator" && (cal.Name() == "At" || cal.Name() == "Range" || cal.Name() == "Slice") {
+					call = cl
+				}
+			})
+			recv, mname, _ := methodCall(call)
+			n++
+			// substitution valid at this call
+			env := &linEnv{info: info, subst: map[types.Object]ast.Expr{}}
+			for o, ds := range defs {
+				for _, d := range ds {
+					if d.rhs == nil || d.node == p.Node() {
+						continue
+					}
+					if _, isCall := ast.Unparen(d.rhs).(*ast.CallExpr); isCall {
+						continue // only linear definitions are worth substituting
+					}
+					// the definition reaches the call on every path (it dominates the call and neither
+					// the variable nor the operands of its right-hand side change in between)
+					dn := d.node
+					if _, _, bypass := g.ReachesAvoiding(g.Entry(), func(x ast.Node) bool { return x == dn }, func(x ast.Node) bool { return x == p.Node() }); bypass {
+						continue
+					}
+					if stableBetween(g, info, dn, p.Node(), append(varsOfExpr(info, d.rhs), o)) {
+						env.subst[o] = d.rhs
+						break
+					}
+				}
+			}
+			var facts []linForm
+			var shown []string
+			for _, gd := range g.Guards(p) {
+				be, ok := gd.Cond.(*ast.BinaryExpr)
+				if !ok || !gd.Polarity || gd.Site == nil {
+					continue
+				}
+				fct, ok := env.factOf(be)
+				if !ok {
+					continue
+				}
+				// the atom's own variables, and those of substituted definitions, must not change on the way
+				vs := varsOfExpr(info, be)
+				for _, o := range varsOfExpr(info, be) {
+					if rhs, ok := env.subst[o]; ok {
+						vs = append(vs, varsOfExpr(info, rhs)...)
+					}
+				}
+				if !stableBetween(g, info, gd.Site, p.Node(), vs) {
+					continue
+				}
+				facts = append(facts, fct)
+				shown = append(shown, nospace(core.ExprStr(gd.Cond)))
+			}
+			lenForm := linForm{c: map[string]int64{nospace(core.ExprStr(recv)) + ".Len()": 1}}
+			var hi ast.Expr
+			target := lenForm
+			if mname == "At" {
+				hi = call.Args[0]
+				target = lenForm.add(env.form(hi), -1).add(linForm{c: map[string]int64{}, k: 1}, -1)
+			} else {
+				hi = call.Args[1]
+				target = lenForm.add(env.form(hi), -1)
+			}
+			ok := entailed(target, facts)
+			c.R.Checkf(rule, "upper-index-within-length@"+name+"/"+nospace(core.ExprStr(call)), c.pos(call.Pos()), ok,
+				"%s: the guards dominating the call (%s) entail that the upper index %s stays within %s.Len() — otherwise the locator reslices into bytes beyond the record (up to the buffer's capacity) or panics", core.ExprStr(call), strings.Join(shown, ", "), core.ExprStr(hi), core.ExprStr(recv))
+		}
+	}
+	c.R.Floor(rule, n, 9)
+}
